@@ -1,5 +1,6 @@
 """C08 -- particle-list set algebra and identifier discipline"""
 from .common import *
+import numpy as np
 from sa import apicompat
 
 TITLE = "Particle-list set algebra and identifier discipline"
@@ -38,6 +39,50 @@ def check_schema(ctx, q, frame, m, fn, what):
                     fn, m)
 
 
+def _enum_values(t, colf, values, where):
+    """value of an enumeration term (unique values of a field, possibly filtered) for a sample column"""
+    def ev(n):
+        if n == colf:
+            return values
+        if n.op == "const":
+            return tm.cval(n)
+        if n.op == "call":
+            h, a = str(n.args[0]), n.args[1:]
+            if h in ("unique", "numpy.unique", ".unique") and len(a) == 1:
+                v = ev(a[0])
+                return np.unique(v)
+            if h == "getitem" and len(a) == 2:
+                return np.asarray(ev(a[0]))[np.asarray(ev(a[1]))]
+            if h in ("numpy.nan_to_num", "numpy.isnan", "numpy.isfinite", "numpy.abs", "numpy.sort", "numpy.asarray", "numpy.array") and len(a) == 1:
+                return getattr(np, h.split(".")[1])(ev(a[0]))
+            if h in (".dropna",) and len(a) == 1:
+                v = np.asarray(ev(a[0]), dtype=float)
+                return v[~np.isnan(v)]
+            if h in ("sorted", "builtins.sorted", "list", "builtins.list", ".tolist", ".to_numpy", ".values") and len(a) == 1:
+                return np.asarray(sorted(ev(a[0]))) if "sorted" in h else np.asarray(ev(a[0]))
+        if n.op in ("eq", "ne", "lt", "le") and len(n.args) == 2:
+            x, y = ev(n.args[0]), ev(n.args[1])
+            return {"eq": np.equal, "ne": np.not_equal, "lt": np.less, "le": np.less_equal}[n.op](x, y)
+        if n.op == "not":
+            return np.logical_not(ev(n.args[0]))
+        if n.op in ("and", "or"):
+            return (np.logical_and if n.op == "and" else np.logical_or)(ev(n.args[0]), ev(n.args[1]))
+        raise Unsupported(f"enumeration of the field's values `{tm.show(t)[:80]}` uses an operation that is not evaluated here", where)
+    return ev(t)
+
+
+_PLAIN_CALLS = {"col", "isin", "each", "unique", "numpy.isclose", "numpy.unique", "sel", "rowelem"}
+
+
+def plain_selection(filters, where):
+    """row selections written as comparisons of fields with values (==, !=, <, isin, and / or / not) are decided; a selection
+    that goes through anything else (a lookup table, a rank, a merge indicator) is not read as a predicate here"""
+    for f_ in filters:
+        for n in tm.walk(f_):
+            if n.op == "call" and str(n.args[0]) not in _PLAIN_CALLS and not str(n.args[0]).startswith(("col", "cell")):
+                raise Unsupported(f"row selection `{tm.show(f_)[:80]}` is not a comparison of a field with the requested values", where)
+
+
 def o81(ctx):
     """row selections"""
     # subset / remove / split
@@ -51,6 +96,7 @@ def o81(ctx):
     check_schema(ctx, q, sub, m, fn, "get_motl_subset")
     want_eq = mk("eq", call("col", const("df"), sym("feature_id")), sym("v"))
     ctx.count(1, {"subset filter": [tm.show(x) for x in sub.filters]})
+    plain_selection(sub.filters, fn)
     if len(sub.filters) != 1 or sub.filters[0] != want_eq:
         ctx.finding(q, "row selection", "a subset must hold exactly the rows whose feature equals the requested value (==)", fn, m,
                     filters=[tm.show(x)[:100] for x in sub.filters])
@@ -93,7 +139,23 @@ def o81(ctx):
     pf = parts[0].attrs["df"]
     check_schema(ctx, q3, pf, m3, fn3, "split_by_feature")
     uq = call("each", call("unique", call("col", const("df"), sym("feature_id"))))
-    if len(pf.filters) != 1 or pf.filters[0] != mk("eq", call("col", const("df"), sym("feature_id")), uq):
+    colf = call("col", const("df"), sym("feature_id"))
+    f0 = pf.filters[0] if len(pf.filters) == 1 else None
+    if f0 is not None and f0.op == "eq" and f0.args[0] == colf and f0.args[1].op == "call" and f0.args[1].args[0] == "each":
+        # feature == v for every v of an enumeration: the enumeration must hold every value of the field (decided on sample columns;
+        # leaving out NaN is immaterial, NaN equals nothing)
+        enum = f0.args[1].args[1]
+        for samp in ([0.0, 1.0, 1.0, 2.0], [3.0, 0.0, 0.0, -1.0, 5.0], [float("nan"), 1.0, 0.0, 1.0], [7.0]):
+            got = _enum_values(enum, colf, np.array(samp), fn3)
+            want = {x for x in samp if x == x}
+            ctx.count(1)
+            if {float(x) for x in np.ravel(got) if x == x} != want:
+                ctx.finding(q3, "partition", f"splitting must enumerate every value of the field: for a field holding {samp} the parts are made for "
+                            f"{sorted(float(x) for x in np.ravel(got) if x == x)} (particles with another value are in no part)", fn3, m3,
+                            filters=[tm.show(x)[:120] for x in pf.filters])
+                break
+    else:
+        plain_selection(pf.filters, fn3)
         ctx.finding(q3, "partition", "splitting must enumerate the unique values of the field and select feature == value for each "
                     "(a partition of the list)", fn3, m3, filters=[tm.show(x)[:120] for x in pf.filters])
     # intersection: semi-join
@@ -111,7 +173,11 @@ def o81(ctx):
     if merged:
         ctx.finding(q4, "row selection", "the intersection is computed with an inner merge: every row of the first list is repeated "
                     "once per occurrence of its id in the second list; it must be a semi-join (isin) keeping each row once", fn4, m4)
-    elif len(res.filters) != 1 or res.filters[0] != want_isin:
+    elif any(tm.has_call(f_, "isin_assume_unique") for f_ in res.filters):
+        ctx.finding(q4, "row selection", "the membership test assumes that no id occurs twice in either list (assume_unique=True): numpy then "
+                    "reports an id of the first list as found when it merely occurs twice there; identifiers of a particle list repeat "
+                    "(several particles per tomogram, object, class)", fn4, m4, filters=[tm.show(x)[:120] for x in res.filters])
+    elif plain_selection(res.filters, fn4) or len(res.filters) != 1 or res.filters[0] != want_isin:
         ctx.finding(q4, "row selection", "the intersection must keep exactly the first list's rows whose id occurs in the second list",
                     fn4, m4, filters=[tm.show(x)[:120] for x in res.filters])
     for c in cols20(ctx.prog):
@@ -356,4 +422,4 @@ def _obligations():
 
 
 def obligations():
-    return _obligations() + [constructors_obligation(['cryomotl.Motl']), labels_obligation("C08"), selectors_obligation("C08"), effects_obligation("C08"), plumbing_obligation("C08")]
+    return _obligations() + [constructors_obligation(['cryomotl.Motl']), labels_obligation("C08"), selectors_obligation("C08"), effects_obligation("C08"), plumbing_obligation("C08"), overrides_obligation("C08"), options_obligation("C08")]
